@@ -738,3 +738,32 @@ Proof.
     (split; [intros E2; exfalso; pose proof (http_status_of_code_not_2xx c0) as N2; rewrite E2 in N2; discriminate
             |intros [E2|E2]; [discriminate|congruence]]).
 Qed.
+
+(* ---------------------------------------------------------------------------------------------
+   the receiver's compression_algorithms list
+   --------------------------------------------------------------------------------------------- *)
+Lemma offered_compression_delivers_l : forall algs comp t a n o,
+  t = Grpc \/ server_accepts algs comp = true -> hop_cfg algs comp t a n o = hop t a n o.
+Proof.
+  intros algs comp t a n o [->|H]; [reflexivity|]. unfold hop_cfg. rewrite H. destruct t; reflexivity.
+Qed.
+
+Lemma unlisted_compression_refused_l : forall algs comp t a n o, t <> Grpc -> server_accepts algs comp = false ->
+  h_called (hop_cfg algs comp t a n o) = false /\
+  h_verdict (hop_cfg algs comp t a n o) = Permanent /\
+  (a <> AuthFail -> h_err_code (hop_cfg algs comp t a n o) = Some codes_InvalidArgument).
+Proof.
+  intros algs comp t a n o Ht H. unfold hop_cfg. rewrite H.
+  destruct t; try congruence; destruct a; repeat split; try reflexivity; intros X; congruence.
+Qed.
+
+(* listing is all that matters: position in the list, and whether "zlib" accompanies "deflate", do not *)
+Lemma server_accepts_listed : forall algs name, 0 <= name <= 6 -> (server_accepts algs name = true <-> In name algs).
+Proof.
+  intros algs name [H0 H6]. unfold server_accepts.
+  replace (0 <=? name) with true by (symmetry; apply Z.leb_le; exact H0).
+  replace (name <=? 6) with true by (symmetry; apply Z.leb_le; exact H6). cbn [andb].
+  rewrite existsb_exists. split.
+  - intros (x & Hx & E). apply Z.eqb_eq in E. subst x. exact Hx.
+  - intros Hin. exists name. split; [exact Hin|apply Z.eqb_refl].
+Qed.
